@@ -30,6 +30,11 @@ func c18Gen(r *rand.Rand, tier string) []spec.Case {
 		if i >= 12 && i < 24 {
 			c.Steps = []string{"h2p", "p2h"}
 		}
+		if c.Launch == "runner" && c.Proto != "netrpc" && r.Intn(3) != 0 {
+			// a listener the plugin accepted and never closed: its socket lives in the runner's socket
+			// directory, which is go-plugin's to remove (with a Cmd launch it would be the user's own leak)
+			c.Steps = append(c.Steps, "p-accept-open")
+		}
 		c.KeepConns = i%2 == 1
 		c.KillRacesAccepts = c.Proto == "grpc" && i%3 == 1
 		out = append(out, spec.Case{Kind: c.Proto, P: spec.MustJSON(c)})
@@ -57,7 +62,7 @@ func c18Judge(c spec.Case, evs []spec.Event, d *Death) CaseResult {
 		kinds[s] = true
 	}
 	var ks []string
-	for _, k := range []string{"dispense", "call", "h2p", "p2h", "stdio"} {
+	for _, k := range []string{"dispense", "call", "h2p", "p2h", "stdio", "p-accept-open"} {
 		if kinds[k] {
 			ks = append(ks, k)
 		}
@@ -112,7 +117,7 @@ func init() {
 				r.Inconcl = append(r.Inconcl, fmt.Sprintf("too few graceful shutdowns observed: %v", r.Counters))
 			}
 		},
-		Rule:        "cases = seeded histories (0-5 steps) of dispense / calls / brokered accept+dial host->plugin and plugin->host / stdio writes, followed by Kill, x protocol (net/rpc, gRPC, gRPC+mux) x TLS (none, AutoMTLS) x launch (Cmd, custom runner with socket dir) x plugin cleanup time; real subprocesses with private sandboxes on both sides; only graceful exits (cleanup marker present) are judged. Monitors: listing of the plugin's sandbox and the host-side temp dir, and a goroutine dump of the host process filtered on go-plugin frames, compared with the count before the case and polled up to 10 s (one case at a time per host process). Class = protocol|TLS|launch|step kinds",
+		Rule:        "cases = seeded histories (0-5 steps) of dispense / calls / brokered accept+dial host->plugin and plugin->host / stdio writes / a brokered listener the plugin accepts and keeps open (custom-runner launches), followed by Kill, x protocol (net/rpc, gRPC, gRPC+mux) x TLS (none, AutoMTLS) x launch (Cmd, custom runner with socket dir) x plugin cleanup time; real subprocesses with private sandboxes on both sides; only graceful exits (cleanup marker present) are judged. Monitors: listing of the plugin's sandbox and the host-side temp dir, and a goroutine dump of the host process filtered on go-plugin frames, compared with the count before the case and polled up to 10 s (one case at a time per host process). Class = protocol|TLS|launch|step kinds",
 		Assumptions: []string{"the harness closes connections it dialled; servers started by AcceptAndServe are go-plugin's to stop", "goroutines started by grpc-go for a ClientConn are not go-plugin's"},
 	})
 }
